@@ -435,7 +435,12 @@ def run_deletes(w, state0, plan):
                 try:
                     if st[0] == 'load':
                         for i in st[1]:
-                            try: get(i)
+                            try:
+                                x = get(i)
+                                if len(st) > 2 and st[2] and x is not None:        # deep: every reference and collection read, so that the
+                                    for key in w.ent_attrs[w.ents[i]]:              # session knows them before a delete may be refused
+                                        v = getattr(x, w.names[key])
+                                        if w.attrs[key].is_collection: v.copy()
                             except NotImplementedError: unloadable.append(i)
                     else:
                         try: o = get(st[1])
@@ -698,6 +703,10 @@ def tie_eval(ctx, inp, plan, groups, steps, marks, commit_err, got, out):
         if mk is None: continue
         sub = ms[mk[0]:mk[0] + mk[1]]
         merr = next((m['err'] for m in sub if m['err']), None)
+        for m in sub:
+            if not m.get('undo_ok', True):
+                ctx.divergence('model: replaying the undo trail does not give the store the call started from', dict(inp, step=st), model=m); return
+            if m['err']: ctx.count('model:failed-delete:undo-trail-length:%s' % (m['trail'] if m['trail'] < 6 else '6+'))
         if rec['err'] is None and merr is None:
             mdead = sorted(i for i, o in enumerate(sub[-1]['objs']) if not o['alive']) if sub else None
             if sub and mdead != rec['dead']:
@@ -840,7 +849,10 @@ def gen_refusal_case(rng):
     casc_rel = rng.choice([
         {'kind': 'm2o', 'sym': False, 'a': S(0, coll=True, casc=True), 'b': S(ek)},
         {'kind': 'm2o', 'sym': False, 'a': S(0, coll=True), 'b': S(ek, req=True)},              # default cascade
-        {'kind': 'o2o', 'sym': False, 'a': S(0, casc=True), 'b': S(ek)}])
+        {'kind': 'o2o', 'sym': False, 'a': S(0, casc=True), 'b': S(ek)},
+        # not cascading but CLEARED before the refusal (Set.__set__(obj, ()) and its undo): many-to-many / optional children
+        {'kind': 'm2m', 'sym': False, 'a': S(0, coll=True), 'b': S(ek, coll=True)},
+        {'kind': 'm2o', 'sym': False, 'a': S(0, coll=True, casc=False), 'b': S(ek)}])
     block_rel = rng.choice([
         {'kind': 'm2o', 'sym': False, 'a': S(0, coll=True, casc=False), 'b': S(ed, req=True)},
         {'kind': 'o2o', 'sym': False, 'a': S(0), 'b': S(ed, req=True)}])
@@ -854,7 +866,7 @@ def gen_refusal_case(rng):
     nk = 1 if casc_rel['kind'] == 'o2o' else rng.choice([1, 2, 3])
     nd = 1 if block_rel['kind'] == 'o2o' else rng.choice([1, 1, 2])
     def child(e, rel_index, extra):
-        vals = [[[rel_index, True], 0]]
+        vals = [[[rel_index, True], [0] if rels[rel_index]['b']['coll'] else 0]]
         # Required references of the other relationships of that entity must be given too
         for j, r in enumerate(rels):
             for sn in ('a', 'b'):
@@ -871,7 +883,7 @@ def gen_refusal_case(rng):
     for _ in range(rng.choice([1, 1, 2, 3])):
         k += 1
         plan.insert(rng.choice([0, 0, len(plan) - 1]), ['mod', rng.choice(kids + kids + docs + [0]), k])
-    if rng.random() < 0.8: plan.insert(0, ['load', list(range(n))])
+    if rng.random() < 0.8: plan.insert(0, ['load', list(range(n)), rng.random() < 0.5])
     if rng.random() < 0.3: plan.append(['obj', rng.choice(kids + docs)])
     return schema, prog, plan
 
